@@ -257,6 +257,14 @@ func genC07(r *R, sc *Scenario, tier string) {
 			}
 		}
 	}
+	if cyc, _ := c07Cycle(spec); (cyc || c07Dangling(spec) != "") && r.P(400) {
+		// a cycle or an undefined dependency is rejected wherever it sits - also among
+		// processes of namespaces that are not selected
+		for _, p := range spec.Procs {
+			p.Namespace = Pick(r, "a", "b", "")
+		}
+		sc.Namespaces = [][]string{{"a"}, {"b"}, {"default"}, {"zz"}, {"a", "default"}}[r.Intn(5)]
+	}
 	if cyc, _ := c07Cycle(spec); !cyc && c07Dangling(spec) == "" {
 		dependents := func(name string) []string {
 			var r []string
@@ -376,6 +384,20 @@ func genC07(r *R, sc *Scenario, tier string) {
 			up.Procs = append(up.Procs, &ProcSpec{Name: "fgnew", Token: "fgnew", Foreground: true}, &ProcSpec{Name: "disnew", Token: "disnew", Disabled: true}, &ProcSpec{Name: "nu", Token: "nu"})
 			for _, nm := range []string{"fgnew", "disnew", "nu"} {
 				sc.Scripts[nm] = &TokenScript{Launches: []simos.Script{{LifeMs: 100}}}
+			}
+			if r.P(500) {
+				// ... and a process that is running becomes one that is not to be started by
+				// itself: its command is stopped and not launched again
+				tog := &ProcSpec{Name: "tog", Token: "tog"}
+				sc.Scripts["tog"] = &TokenScript{Launches: []simos.Script{{LifeMs: -1, TermLagMs: 10}, {LifeMs: -1, TermLagMs: 10}}}
+				spec.Procs = append(spec.Procs, tog)
+				t2 := *tog
+				if r.P(500) {
+					t2.Disabled = true
+				} else {
+					t2.Foreground = true
+				}
+				up.Procs = append(up.Procs, &t2)
 			}
 			if len(spec.Procs) > 1 && r.P(500) {
 				// an existing process that is not to be started changes as well
